@@ -86,10 +86,11 @@ write faults (`o.fsize = none`).  Times are in microseconds, the resolution of t
 
 Modelled, not proved: the threads of the real rpdcp receiver are represented by sequential
 processing in an arbitrary order (assumption: the kernel serialises operations per path, and the
-targets' names are distinct, so the threads work on disjoint sub-trees); sources that cannot be written BELOW the
-top level of a copied tree (inside a directory that does arrive) are covered by the correspondence (pinned conflict
-cases at depth 2 and 3, session model `sess`) and by `error_isolated_open`/`copy_with_write_faults` at the byte
-level, not by `error_isolated_session`, whose items are the sources the user names.
+targets' names are distinct, so the threads work on disjoint sub-trees); entries that cannot be written BELOW the
+top level of a copied tree can only exist inside directories that are already there (a merge in which the kinds
+DISAGREE somewhere down the tree): `copy_onto_existing` covers the merge when the kinds agree, `error_isolated_session`
+the disagreement at the top level; the disagreement deeper down is covered by the correspondence (pinned conflict
+cases at depth 2 and 3, session model `sess`) and by `error_isolated_open`/`copy_with_write_faults` at the byte level.
 A source that cannot be READ: the repaired client (da13fc3) checks every entry with access(2) while it expands the
 sources and ends before the first byte is sent (stated, not modelled: the model's trees are readable; pinned end-to-end
 case `unreadable` as uid 1000 and the four refused-source kinds).
